@@ -135,6 +135,8 @@ class HedTag:
                 tag_entry = self._schema.get_tag_entry(new_tag_val, schema_namespace=self.schema_namespace)
 
             self._schema_entry = tag_entry
+            if tag_entry:
+                self.tag_terms = tag_entry.tag_terms  # searches by term follow the new base tag
         else:
             raise ValueError("Cannot set unidentified tags")
 
